@@ -589,7 +589,10 @@ def rule_clause(repo, tier):
                     # (quotient by the loss, or the threshold scaled by it).  StopOnPlateau's own example shows the absolute form.
                     if ok and cls_ == 'ReduceToBason':
                         thr = cmp_.comparators[0] if expr is cmp_.left else cmp_.left
-                        is_loss = lambda y: dotted(y) in (prev, cur)
+                        # ... against the loss of THIS step (the one the step is given): (last - loss) / loss.  Measured against the previous loss the same history
+                        # counts as a stall whenever decreasing < d/loss but >= d/last - the two conventions differ by the factor loss/last, visible for every
+                        # threshold that is not tiny
+                        is_loss = lambda y: dotted(y) == cur
                         rel = (isinstance(expr, ast.BinOp) and isinstance(expr.op, ast.Div) and any(is_loss(y) for y in ast.walk(expr.right))) or \
                               (isinstance(thr, ast.BinOp) and isinstance(thr.op, ast.Mult) and any(is_loss(y) for y in ast.walk(thr)))
                         ok = ok and rel
